@@ -18,13 +18,14 @@ import (
 // with the budgets lifted and a 60 s wall clock, and only that verdict counts.
 
 type c03Case struct {
-	DS     *DeclSet
-	Spec   string
-	Source string
-	Argv   []string
-	Env    EnvState
-	OnSub  bool // the declarations and the spec belong to a sub-command, not to the application itself
-	Stream StreamPlan
+	DS      *DeclSet
+	Spec    string
+	Source  string
+	Argv    []string
+	Env     EnvState
+	OnSub   bool // the declarations and the spec belong to a sub-command, not to the application itself
+	Stream  StreamPlan
+	Version bool // the application declares a version flag (-V --version)
 }
 
 func (c *c03Case) Describe() interface{} {
@@ -228,6 +229,13 @@ func (c03Prop) genOne(t *Tape, light bool) *c03Case {
 	if t.Draw(4) == 0 {
 		c.Stream = drawStream(t)
 	}
+	c.Version = t.Draw(5) == 0
+	if c.Version && t.Draw(3) == 0 {
+		argv = argv[:1] // an application with a version flag and nothing at all on the command line
+		if c.OnSub {
+			argv = append(argv, "sub")
+		}
+	}
 	c.Argv = argv
 	// every subset of the env-backed declarations
 	c.Env = envFor(t, ds.All(), func(d *Decl) bool { return t.Draw(3) != 0 })
@@ -277,6 +285,9 @@ func c03Prepare(c *c03Case, id int) *Prepared {
 		root = &CmdDecl{Name: "app", Subs: []*CmdDecl{sub}}
 	}
 	app := &AppDecl{Root: root, Policy: flag.ContinueOnError}
+	if c.Version {
+		app.Version = []string{"V version", "1.0-sim"}
+	}
 	app.Finish()
 	p := NewProc(id)
 	p.Stream = c.Stream
